@@ -16,6 +16,8 @@ static const fam_t FAMS[] = {
   {"kernel", fam_kernel},
   {"kernels", fam_kernels},
   {"alloc", fam_alloc},
+  {"fault", fam_fault},
+  {"io", fam_io},
   {NULL, NULL}};
 
 static void cfg_event(void) {
